@@ -95,6 +95,32 @@ impl SinkState {
     }
 }
 
+/// Typed payload of every simulated (non-OS) sink failure.
+#[derive(Debug)]
+pub struct SinkFailure {
+    pub seq: u64,
+}
+
+impl std::fmt::Display for SinkFailure {
+    fn fmt(&self, f: &mut std::fmt::Formatter<'_>) -> std::fmt::Result {
+        f.write_str(&SinkState::fail_msg(self.seq))
+    }
+}
+
+impl std::error::Error for SinkFailure {}
+
+/// Text of an error as the checks compare it: an error that carries the text of a simulated sink
+/// failure but not its typed payload is a copy, not the sink's error.
+pub fn describe_error(e: &io::Error) -> String {
+    let text = e.to_string();
+    let has_payload = e.get_ref().map_or(false, |r| r.downcast_ref::<SinkFailure>().is_some());
+    if text.starts_with("simulated sink failure #") && !has_payload {
+        format!("{text} [typed payload lost: not the sink's error object]")
+    } else {
+        text
+    }
+}
+
 #[derive(Clone)]
 pub struct SimSink(pub Rc<RefCell<SinkState>>);
 
@@ -143,10 +169,12 @@ impl Write for SimSink {
             WStep::Accept
         };
         st.step_idx += 1;
+        let mut quiet = false;
         if let WStep::Storm(n) = step {
             if st.storm_left == 0 {
                 st.storm_left = n.max(1);
             }
+            quiet = st.storm_left > 512 && n.max(1) - st.storm_left > 512;
             st.storm_left -= 1;
             if st.storm_left > 0 {
                 st.step_idx -= 1;
@@ -185,7 +213,7 @@ impl Write for SimSink {
                 st.last_os_error.set(None);
                 (
                     WRes::Err(kind),
-                    Err(io::Error::new(kind, SinkState::fail_msg(st.fail_seq))),
+                    Err(io::Error::new(kind, SinkFailure { seq: st.fail_seq })),
                 )
             }
             WStep::FailOs(code) => {
@@ -213,7 +241,9 @@ impl Write for SimSink {
             WRes::Lie => u64::MAX - 3,
             WRes::Panic => u64::MAX - 4,
         });
-        st.log.push((offered, res));
+        if !quiet {
+            st.log.push((offered, res));
+        }
         if res == WRes::Panic {
             drop(guard);
             panic!("simulated panic inside Write::write");
@@ -259,7 +289,9 @@ pub fn gen_sink(rng: &mut Rng, class: u8) -> SinkCfg {
                 };
                 steps.push(step);
             }
-            if rng.chance(1, 150) {
+            let cycle = rng.chance(2, 3);
+            // (a storm in a cyclic plan would come round again and again: non-cyclic plans only)
+            if !cycle && rng.chance(1, 50) {
                 let n = *rng.pick(&crate::source::STORM_SIZES);
                 let n = if cfg!(miri) { n.min(300) } else { n };
                 let at = rng.below(steps.len() + 1);
@@ -267,10 +299,7 @@ pub fn gen_sink(rng: &mut Rng, class: u8) -> SinkCfg {
             }
             // never end a cycle with Interrupted only
             steps.push(WStep::Short(1 + rng.small(10)));
-            SinkCfg {
-                steps,
-                cycle: rng.chance(2, 3),
-            }
+            SinkCfg { steps, cycle }
         }
         _ => {
             let mut steps = vec![];
